@@ -27,6 +27,7 @@ type balEnv struct {
 	majority                     neotest.Signer // the committee-majority account (n/2+1 of n); = Alphabet for n in {1,2,4}
 	member                       neotest.Signer // one committee member alone
 	n                            int
+	extra                        int      // number of extra lock addresses in the pool
 	addrs                        [][]byte // pool of addresses (observed after every op)
 	epoch                        int64
 }
@@ -60,9 +61,13 @@ type balNotif struct {
 	until    *big.Int
 }
 
-func newBalEnv(t testing.TB, n int) *balEnv {
+func newBalEnv(t testing.TB, n int) *balEnv { return newBalEnvX(t, n, 0) }
+
+// newBalEnvX additionally puts extraLocks fresh 20-byte lock addresses at the
+// end of the observed pool (index balIdxExtra and up).
+func newBalEnvX(t testing.TB, n int, extraLocks int) *balEnv {
 	var v *Env
-	b := &balEnv{n: n}
+	b := &balEnv{n: n, extra: extraLocks}
 	if n <= 1 {
 		v = NewEnv(t)
 		b.committee, b.majority, b.member = v.E.Committee, v.E.Committee, v.E.Committee
@@ -119,6 +124,13 @@ func newBalEnv(t testing.TB, n int) *balEnv {
 		b.addrs = append(b.addrs, a)
 	}
 	b.addrs = append(b.addrs, []byte{}, []byte{1, 2, 3, 4, 5}, append(make([]byte, 24), 7))
+	for i := 0; i < extraLocks; i++ {
+		a := make([]byte, 20)
+		a[0] = 0xE0
+		a[1] = byte(i + 1)
+		a[19] = byte(0x80 + i)
+		b.addrs = append(b.addrs, a)
+	}
 	return b
 }
 
@@ -128,6 +140,7 @@ const (
 	balIdxSelf  = 4
 	balIdxLock0 = 6
 	balIdxEmpty = 9
+	balIdxExtra = 12 // extra lock addresses (newBalEnvX)
 )
 
 func (b *balEnv) signerList(idx []int) []neotest.Signer {
@@ -417,7 +430,14 @@ func (g *balGen) next(step int) balOp {
 	case w < 82:
 		f := g.funded()
 		l := balIdxLock0 + r.Intn(3)
+		if g.b.extra > 0 && r.Intn(3) != 0 {
+			l = balIdxExtra + r.Intn(g.b.extra)
+		}
 		until := g.b.epoch + int64(r.Intn(4)) - 1
+		if g.prop == "C09" && r.Intn(3) != 0 {
+			// pending locks with pairwise different expiries, reached one by one by later ticks
+			until = g.b.epoch + 1 + int64(r.Intn(6))
+		}
 		if r.Intn(6) == 0 {
 			until = int64(r.Intn(3)) - 1
 		}
@@ -430,6 +450,10 @@ func (g *balGen) next(step int) balOp {
 		e := g.b.epoch + int64(r.Intn(3))
 		if r.Intn(4) == 0 {
 			e = int64(r.Intn(6)) - 1
+		}
+		if g.prop == "C09" && r.Intn(3) != 0 {
+			// mostly consecutive ticks so that every expiry epoch is visited
+			return balOp{Kind: "newEpochNetmap", Epoch: g.b.epoch + 1, Signers: []int{-1}}
 		}
 		if r.Intn(2) == 0 {
 			return balOp{Kind: "newEpochNetmap", Epoch: g.b.epoch + 1 + int64(r.Intn(2)), Signers: g.alphaSigners()}
@@ -500,6 +524,8 @@ func balCorpus(b *balEnv) [][]balOp {
 			{Kind: "transfer", From: b.balance.BytesBE(), To: B, Amount: n(100), Signers: []int{-2}},
 			{Kind: "transferX", From: b.balance.BytesBE(), To: B, Amount: n(100), Details: []byte{5}, Signers: al},
 		},
+		balManyLocks(b, 3, []int64{2, 5, 9}, []int64{1, 2, 3, 4, 5, 6, 9, 10}), // three pending locks, pairwise different expiries, visited one by one
+		balManyLocks(b, 40, nil, []int64{1, 2, 3}),                             // 40 locks expiring at one tick (+ one later)
 		{ // the committee-majority account and single members are not the Alphabet (they differ for n = 3)
 			{Kind: "mint", To: A, Amount: n(1000), Details: []byte{1}, Signers: al},
 			{Kind: "mint", To: A, Amount: n(10), Details: []byte{1}, Signers: []int{-2}},
@@ -515,6 +541,47 @@ func balCorpus(b *balEnv) [][]balOp {
 			{Kind: "newEpoch", Epoch: 3, Signers: al},
 		},
 	}
+}
+
+// balCorpusExtra: number of extra lock addresses corpus history ci needs.
+func balCorpusExtra(ci int) int {
+	switch ci {
+	case 5:
+		return 4
+	case 6:
+		return 41
+	}
+	return 0
+}
+
+// balManyLocks: k locks from two owners onto the extra lock addresses (untils given, or all 2 plus one at 7), then ticks.
+func balManyLocks(b *balEnv, k int, untils []int64, ticks []int64) []balOp {
+	n := func(i int64) *big.Int { return big.NewInt(i) }
+	al := []int{-1}
+	A, B := b.addrs[0], b.addrs[1]
+	h := []balOp{
+		{Kind: "mint", To: A, Amount: n(100000), Details: []byte{1}, Signers: al},
+		{Kind: "mint", To: B, Amount: n(100000), Details: []byte{1}, Signers: al},
+	}
+	if b.extra < k+1 {
+		return h // pool without extra lock addresses (corpus length probe)
+	}
+	for i := 0; i < k; i++ {
+		u := int64(2)
+		if untils != nil {
+			u = untils[i%len(untils)]
+		}
+		from := A
+		if i%3 == 2 {
+			from = B
+		}
+		h = append(h, balOp{Kind: "lock", From: from, To: b.addrs[balIdxExtra+i], Amount: n(int64(10 + i)), Until: u, Details: []byte{byte(i)}, Signers: al})
+	}
+	h = append(h, balOp{Kind: "lock", From: A, To: b.addrs[balIdxExtra+k], Amount: n(7), Until: 7, Details: []byte{0xff}, Signers: al})
+	for _, e := range ticks {
+		h = append(h, balOp{Kind: "newEpoch", Epoch: e, Signers: al})
+	}
+	return h
 }
 
 // ---------------------------------------------------------------------------
@@ -738,7 +805,13 @@ func runBalanceFamily(t *testing.T, prop string) {
 	distinct := map[string]bool{}
 	var poolRefs []string
 	run := func(hidx int, ncomm int, ops func(b *balEnv, step int, g *balGen) (balOp, bool)) {
-		b := newBalEnv(t, ncomm)
+		extra := 0
+		if hidx < 0 {
+			extra = balCorpusExtra(-1 - hidx) // corpus histories that need many lock addresses
+		} else if prop == "C09" {
+			extra = 4
+		}
+		b := newBalEnvX(t, ncomm, extra)
 		g := &balGen{r: Rng(int64(hidx)), b: b, prop: prop}
 		mon := &balMon{b: b, st: st, prop: prop, ledger: map[string]*big.Int{}, premise: true, locks: map[string]*balLock{}}
 		zero := balObs{supply: new(big.Int)}
@@ -801,6 +874,9 @@ func runBalanceFamily(t *testing.T, prop string) {
 		nc := len(balCorpus(b0))
 		for ci := 0; ci < nc; ci++ {
 			for _, ncomm := range []int{1, 3} {
+				if ncomm == 3 && balCorpusExtra(ci) > 0 {
+					continue // the many-locks histories do not depend on the committee
+				}
 				ci := ci
 				run(-1-ci, ncomm, func(b *balEnv, step int, g *balGen) (balOp, bool) {
 					h := balCorpus(b)[ci]
